@@ -89,6 +89,11 @@ type nodeRT struct {
 	pendSnap *pb.Snapshot
 	pendEnts []pb.Entry
 
+	// what the next StepNode will consume (tracked for the handler-level correspondence)
+	qMsgs, qSnap, qProps []qmsg
+	qTicks               int
+	blockedCC            pb.ConfChange
+
 	applyQ  []applyStep
 	app     appState
 	blocked *confWait
@@ -116,8 +121,11 @@ type Cluster struct {
 	nextP   uint64
 	Panic   string
 	// observers
-	OnRecord func(*Record)
-	logger   raft.Logger
+	OnRecord  func(*Record)
+	Core      CoreSink // handler-level cases (see core.go); nil = off
+	CoreStats *CoreStats
+	coreN     int
+	logger    raft.Logger
 }
 
 // NewCluster boots ids 1..Voters with StartNode(peers = all initial voters).
@@ -134,7 +142,7 @@ func NewCluster(opt Options) (*Cluster, *Record, error) {
 	if opt.Storage == "" {
 		opt.Storage = "mem"
 	}
-	c := &Cluster{Opt: opt, nodes: map[uint64]*nodeRT{}, net: map[int]*netMsg{}, nextMsg: 1, nextP: 1}
+	c := &Cluster{Opt: opt, nodes: map[uint64]*nodeRT{}, net: map[int]*netMsg{}, nextMsg: 1, nextP: 1, CoreStats: newCoreStats()}
 	c.logger = raft.VerifSilentLogger()
 	raft.SetLogger(c.logger)
 	for i := 1; i <= opt.Universe; i++ {
@@ -261,6 +269,8 @@ func (c *Cluster) apply(ev Event, rec *Record) {
 		}
 		if !nd.n.Tick() {
 			rec.Res = "tickfull"
+		} else {
+			nd.qTicks++
 		}
 	case "deliver":
 		if !needAlive() {
@@ -277,6 +287,11 @@ func (c *Cluster) apply(ev Event, rec *Record) {
 		}
 		if err := nd.n.Step(ctx, cloneMsg(m.m)); err != nil {
 			rec.Res = "err"
+		} else if m.m.Type == pb.MsgProp {
+			// node.stepWithDrop: proposals, forwarded ones included, go to the proposal queue
+			nd.qProps = append(nd.qProps, qmsg{cloneMsg(m.m), false})
+		} else {
+			nd.enqueue(cloneMsg(m.m), false)
 		}
 	case "drop":
 		if _, ok := c.net[ev.M]; !ok {
@@ -299,6 +314,8 @@ func (c *Cluster) apply(ev Event, rec *Record) {
 		binary.BigEndian.PutUint64(b, ev.P)
 		if err := nd.n.Propose(ctx, b); err != nil {
 			rec.Res = "err"
+		} else {
+			nd.qProps = append(nd.qProps, qmsg{pb.Message{Type: pb.MsgProp, Entries: []pb.Entry{{Data: b}}}, true})
 		}
 	case "conf":
 		if !needAlive() {
@@ -331,6 +348,8 @@ func (c *Cluster) apply(ev Event, rec *Record) {
 		cc := pb.ConfChange{Type: t, ReplicaID: ev.X, NodeGroup: grp(ev.X)}
 		if err := nd.n.ProposeConfChange(ctx, cc); err != nil {
 			rec.Res = "err"
+		} else if data, err := cc.Marshal(); err == nil {
+			nd.qProps = append(nd.qProps, qmsg{pb.Message{Type: pb.MsgProp, Entries: []pb.Entry{{Type: pb.EntryConfChange, Data: data}}}, true})
 		}
 	case "transfer":
 		if !needAlive() {
@@ -338,6 +357,7 @@ func (c *Cluster) apply(ev Event, rec *Record) {
 		}
 		st, _ := raft.VerifRaftState(nd.n, false)
 		nd.n.TransferLeadership(ctx, st.Lead, ev.X)
+		nd.enqueue(pb.Message{Type: pb.MsgTransferLeader, From: ev.X, To: st.Lead}, true)
 	case "readindex":
 		if !needAlive() {
 			return
@@ -345,11 +365,13 @@ func (c *Cluster) apply(ev Event, rec *Record) {
 		b := make([]byte, 8)
 		binary.BigEndian.PutUint64(b, ev.P)
 		nd.n.ReadIndex(ctx, b)
+		nd.enqueue(pb.Message{Type: pb.MsgReadIndex, Entries: []pb.Entry{{Data: b}}}, true)
 	case "unreach":
 		if !needAlive() {
 			return
 		}
 		nd.n.ReportUnreachable(ev.X, grp(ev.X))
+		nd.enqueue(pb.Message{Type: pb.MsgUnreachable, From: ev.X}, true)
 	case "snaprep":
 		if !needAlive() {
 			return
@@ -359,6 +381,7 @@ func (c *Cluster) apply(ev Event, rec *Record) {
 			s = raft.SnapshotFailure
 		}
 		nd.n.ReportSnapshot(ev.X, grp(ev.X), s)
+		nd.enqueue(pb.Message{Type: pb.MsgSnapStatus, From: ev.X, Reject: ev.Fail}, true)
 	case "step":
 		if !needAlive() {
 			return
@@ -454,12 +477,13 @@ func (c *Cluster) crash(nd *nodeRT) {
 	}
 	nd.rd, nd.stages, nd.outIDs = nil, nil, nil
 	nd.pendSnap, nd.pendEnts = nil, nil
+	nd.clearQueues()
 	nd.applyQ = nil
 }
 
 func (c *Cluster) step(nd *nodeRT, ev Event, rec *Record) {
 	raft.VerifSetRand(ev.Rnd)
-	rd, ok := nd.n.StepNode(!ev.NoMore, ev.Busy)
+	rd, ok := c.coreStep(nd, ev, func() (raft.Ready, bool) { return nd.n.StepNode(!ev.NoMore, ev.Busy) })
 	// a conf change applied asynchronously is consumed by StepNode (handleConfChanged)
 	if nd.blocked != nil && raft.VerifConfPending(nd.n) == 0 {
 		cs := <-nd.blocked.done
@@ -596,7 +620,7 @@ func (c *Cluster) readyStage(nd *nodeRT, rec *Record) {
 		}
 		nd.outIDs = nil
 	case "advance":
-		nd.n.Advance(*rd)
+		c.coreAdvance(nd, rd)
 		nd.rd = nil
 		nd.stages = nil
 	}
@@ -652,7 +676,7 @@ func (c *Cluster) applySync(nd *nodeRT, rec *Record) {
 	}
 	if nd.blocked != nil {
 		cc := <-nd.n.ConfChangedCh()
-		nd.n.HandleConfChanged(cc)
+		c.coreConf(nd, cc)
 		if cs := <-nd.blocked.done; cs != nil {
 			nd.app.conf = *cs
 		}
@@ -668,7 +692,7 @@ func (c *Cluster) applySync(nd *nodeRT, rec *Record) {
 			x := *cc
 			go func() { w.done <- n.ApplyConfChange(x) }()
 			got := <-nd.n.ConfChangedCh()
-			nd.n.HandleConfChanged(got)
+			c.coreConf(nd, got)
 			if cs := <-w.done; cs != nil {
 				nd.app.conf = *cs
 			}
@@ -702,6 +726,7 @@ func (c *Cluster) applyAsync(nd *nodeRT, rec *Record) {
 				time.Sleep(time.Microsecond)
 			}
 			nd.blocked = w
+			nd.blockedCC = x
 			if cc.Type == pb.ConfChangeRemoveNode && cc.ReplicaID == nd.id {
 				nd.removed = true
 			}
